@@ -130,3 +130,33 @@ Qed.
 
 Definition debug_compact env d raw := render_compact (debug_tree env 8 d raw).
 Definition debug_pretty env d raw := render_pretty "" (debug_tree env 8 d raw).
+
+Lemma append_assoc_ok (a b c : string) : (a ++ b) ++ c = a ++ (b ++ c).
+Proof. induction a as [|ch a IH]; cbn; [reflexivity|now rewrite IH]. Qed.
+
+(** the compact renderer is the standard struct format: [Name { a: x, b: y }] *)
+Fixpoint join (sep : string) (l : list string) : string :=
+  match l with
+  | [] => ""
+  | [x] => x
+  | x :: l' => x ++ sep ++ join sep l'
+  end.
+
+Lemma render_fields_join fs : forall f,
+  (fix go (l : list (string * dtree)) : string :=
+     match l with
+     | [] => ""
+     | [(a, v)] => a ++ ": " ++ render_compact v
+     | (a, v) :: l' => a ++ ": " ++ render_compact v ++ ", " ++ go l'
+     end) (f :: fs)
+  = join ", " (map (fun av => fst av ++ ": " ++ render_compact (snd av)) (f :: fs)).
+Proof.
+  induction fs as [|g fs IH]; intros [a v]; [reflexivity|].
+  specialize (IH g). cbn [map join fst snd] in *. rewrite <- IH. destruct g as [b w].
+  rewrite <- !append_assoc_ok. reflexivity.
+Qed.
+
+Theorem render_compact_struct n f fs :
+  render_compact (DStruct n (f :: fs))
+  = n ++ " { " ++ join ", " (map (fun av => fst av ++ ": " ++ render_compact (snd av)) (f :: fs)) ++ " }".
+Proof. cbn [render_compact]. now rewrite render_fields_join. Qed.
